@@ -14,6 +14,7 @@
 #include <sstream>
 
 #include "common/leak.h"
+#include "common/faultmode.h"
 
 namespace {
 
@@ -164,6 +165,7 @@ struct Impl : IImpl
 	Slot slots[kMaxLists];
 	std::vector<Handle> handles;
 
+	Impl() { handles.reserve(4096); }
 	~Impl() override {
 		for(int i = 0; i < kMaxLists; ++i) destroyList(i);
 	}
@@ -297,6 +299,21 @@ IImpl * makeImpl(int cfg)
 
 // ---------------------------------------------------------------- model + lock-step interpreter
 
+// `lib->op(...)` runs the library call with the fault injector un-paused for the duration of the full expression;
+// plain `impl->op(...)` (probes, bookkeeping) keeps it paused
+struct LibProxy
+{
+	IImpl * p = nullptr;
+	struct Scope
+	{
+		IImpl * p;
+		explicit Scope(IImpl * p_) : p(p_) { --faults().paused; }
+		~Scope() { ++faults().paused; }
+		IImpl * operator -> () const { return p; }
+	};
+	Scope operator -> () const { return Scope(p); }
+};
+
 struct MList
 {
 	bool alive = false;
@@ -323,6 +340,7 @@ struct Interp
 	std::string prop;
 	Verdict & v;
 	std::unique_ptr<IImpl> impl;
+	LibProxy lib;
 	MList lists[kMaxLists];
 	std::vector<int> nodeCb;               // node id (== handle index) -> callback id
 	std::vector<const std::vector<Op> *> cbBody;
@@ -335,6 +353,7 @@ struct Interp
 	bool allowReuse = false;
 	std::ostringstream log;
 	unsigned long long lastCounter[kMaxLists];
+	FaultPlan * plan = nullptr;
 
 	// class / non-triviality bookkeeping
 	bool sawInsertLiveNonHead = false, sawRemoveLive = false, sawStaleOp = false, invokeAfter = false;
@@ -363,6 +382,7 @@ struct Interp
 	// property a behavioural mismatch belongs to: the domain the program was drawn from
 	std::string domainProp() const {
 		if(prop == "C08") return "C01,C02,C10,C08";
+		if(prop == "C09") return "C09";
 		return prop;
 	}
 
@@ -427,11 +447,49 @@ struct Interp
 	}
 
 	void exec(const std::vector<Op> & ops, int depth, int self) {
+		int index = 0;
 		for(const Op & op : ops) {
 			if(failed) return;
-			execOp(op, depth, self);
+			if(depth == 0 && plan) execWithFaults(op, index);
+			else execOp(op, depth, self);
 			if(depth == 0 && ! failed) quiescent();
+			++index;
 		}
+	}
+
+	// C09: the operation may be cut by an injected exception. Listener-management operations, assignment and copies
+	// must then leave everything as it was (model snapshot restored); an invocation leaves what the callbacks did.
+	void execWithFaults(const Op & op, int index) {
+		struct Snap { MList lists[kMaxLists]; std::vector<int> nodeCb; size_t bodies; int lastRemoved; unsigned long long counters[kMaxLists]; } snap;
+		for(int i = 0; i < kMaxLists; ++i) { snap.lists[i] = lists[i]; snap.counters[i] = lastCounter[i]; }
+		snap.nodeCb = nodeCb; snap.bodies = cbBody.size(); snap.lastRemoved = lastRemoved;
+		const size_t depth0 = frames.size();
+		bool nonEmpty = false;
+		for(int i = 0; i < kMaxLists; ++i) if(lists[i].alive && ! lists[i].nodes.empty()) nonEmpty = true;
+		int caught = 0;
+		{
+			FaultArm arm(plan, index);
+			try { execOp(op, 0, -1); }
+			catch(const Injected &) { caught = 1; }
+			catch(const std::bad_alloc &) { caught = 2; }
+			catch(const DeadlockDetected &) { throw; }
+			catch(...) { fail("fault.foreign", "C09", "an exception of a different type than the injected one reached the caller"); }
+		}
+		if(! caught) return;
+		if(faults().fired == 0) { fail("fault.spurious", "C09", "an exception reached the caller although no fault was injected"); return; }
+		++plan->fired;
+		plan->firedKind = faults().lastKind;
+		auto it = plan->at.find(index);
+		if(it != plan->at.end() && it->second > 1 && nonEmpty) plan->firedAtKGreater1OnNonEmpty = true;
+		log << "[fault " << (caught == 1 ? "Injected" : "bad_alloc") << "]";
+		frames.resize(depth0);
+		if(op.kind != K_INVOKE) {
+			for(int i = 0; i < kMaxLists; ++i) { lists[i] = snap.lists[i]; lastCounter[i] = snap.counters[i]; }
+			nodeCb = snap.nodeCb; cbBody.resize(snap.bodies); lastRemoved = snap.lastRemoved;
+		}
+		if((int)impl->handleCount() != (int)nodeCb.size()) fail("fault.handles", "C09", "a failed add still produced a handle (or lost one)");
+		// whatever happened, every list must still describe exactly the model content (strong guarantee / callbacks' own effects)
+		for(int s2 = 0; s2 < kMaxLists && ! failed; ++s2) if(lists[s2].alive) enumerateAndCompare(s2, 0, "forEach after the exception");
 	}
 
 	void checkAdded(int slot) {
@@ -454,8 +512,8 @@ struct Interp
 			int cb = newCallback(op, true);
 			int node = (int)nodeCb.size();
 			nodeCb.push_back(cb);
-			if(op.kind == K_APPEND) { lists[slot].nodes.push_back(node); impl->append(slot, cb); }
-			else { lists[slot].nodes.insert(lists[slot].nodes.begin(), node); impl->prepend(slot, cb); }
+			if(op.kind == K_APPEND) { lists[slot].nodes.push_back(node); lib->append(slot, cb); }
+			else { lists[slot].nodes.insert(lists[slot].nodes.begin(), node); lib->prepend(slot, cb); }
 			log << '(' << slot << ":n" << node << ")";
 			checkAdded(slot);
 			break;
@@ -479,7 +537,7 @@ struct Interp
 				nodes.push_back(node);
 			}
 			log << '(' << slot << ":n" << node << " before h" << h << ")";
-			impl->insert(slot, cb, h);
+			lib->insert(slot, cb, h);
 			checkAdded(slot);
 			break;
 		}
@@ -507,7 +565,7 @@ struct Interp
 				if(! frames.empty() && h == lastRemoved) doubleRemove = true;
 			}
 			if(h >= 0) lastRemoved = h;
-			bool got = impl->remove(slot, h);
+			bool got = lib->remove(slot, h);
 			log << "(" << slot << ":h" << h << ")=" << got;
 			if(got != expect) {
 				fail("cbl.remove.result", domainProp(), "remove(h" + std::to_string(h) + ") returned " + std::to_string(got) + ", model says " + std::to_string(expect));
@@ -519,7 +577,7 @@ struct Interp
 			int h = resolveHandle(op.a, self);
 			bool expect = h >= 0 && inList(slot, h);
 			if(h >= 0 && ! expect) sawStaleOp = true;
-			bool got = impl->owns(slot, h);
+			bool got = lib->owns(slot, h);
 			log << "(" << slot << ":h" << h << ")=" << got;
 			if(got != expect) {
 				fail("cbl.owns.result", domainProp(), "ownsHandle(h" + std::to_string(h) + ") returned " + std::to_string(got) + ", model says " + std::to_string(expect));
@@ -529,8 +587,8 @@ struct Interp
 		case K_EMPTY: {
 			if(slot < 0) break;
 			bool expect = lists[slot].nodes.empty();
-			bool got = impl->empty(slot);
-			bool gotB = impl->asBool(slot);
+			bool got = lib->empty(slot);
+			bool gotB = lib->asBool(slot);
 			if(got != expect || gotB == expect) {
 				fail("cbl.empty.result", domainProp(), "empty() returned " + std::to_string(got) + "/bool " + std::to_string(gotB) + ", model says empty=" + std::to_string(expect));
 			}
@@ -551,7 +609,7 @@ struct Interp
 			if(slot < 0) break;
 			int stop = op.a < 0 ? 0 : op.a;
 			std::vector<std::pair<int, int> > got;
-			bool r = impl->forEachIf(slot, op.b & 1, stop, got);
+			bool r = lib->forEachIf(slot, op.b & 1, stop, got);
 			const auto & nodes = lists[slot].nodes;
 			size_t expN = std::min(nodes.size(), (size_t)stop + 1);
 			bool expR = nodes.size() <= (size_t)stop;
@@ -580,7 +638,7 @@ struct Interp
 				sawRemoveLive = true;
 				if(! frames.empty()) { mutatedDuringInvoke = true; removedDuringInvocation = true; }
 			}
-			int got = impl->util(slot, which, cb);
+			int got = lib->util(slot, which, cb);
 			log << "(cb" << cb << ")=" << got;
 			if(got != expect) {
 				fail("cbl.util.result", domainProp(), std::string(kindName(op.kind)) + "(cb" + std::to_string(cb) + ") returned " + std::to_string(got) + ", model says " + std::to_string(expect));
@@ -592,7 +650,7 @@ struct Interp
 			if(d < 0) break;
 			lists[d].alive = true;
 			lists[d].nodes.clear();
-			impl->newList(d, op.b);
+			lib->newList(d, op.b);
 			if(op.b & 3) dirtyStorage = true;
 			lastCounter[d] = impl->counter(d);
 			break;
@@ -603,7 +661,7 @@ struct Interp
 			if(src < 0 || d < 0) break;
 			lists[d].alive = true;
 			lists[d].nodes.clear();
-			impl->copyCtor(src, d, op.a);
+			lib->copyCtor(src, d, op.a);
 			if(op.a & 3) dirtyStorage = true;
 			adoptCopy(d, src);
 			transferStage = 1;
@@ -612,7 +670,7 @@ struct Interp
 		case K_COPYASSIGN: {
 			int src = pickLive(op.b);
 			if(src < 0 || slot < 0 || slotBusy(slot)) break;
-			impl->copyAssign(slot, src);
+			lib->copyAssign(slot, src);
 			if(src != slot) {
 				lists[slot].nodes.clear();
 				adoptCopy(slot, src);
@@ -628,7 +686,7 @@ struct Interp
 			lists[d].alive = true;
 			lists[d].nodes = lists[src].nodes;
 			lists[src].nodes.clear();
-			impl->moveCtor(src, d, op.a);
+			lib->moveCtor(src, d, op.a);
 			if(op.a & 3) dirtyStorage = true;
 			lastCounter[d] = impl->counter(d);
 			lastCounter[src] = impl->counter(src);
@@ -644,7 +702,7 @@ struct Interp
 			pool.insert(pool.end(), lists[slot].nodes.begin(), lists[slot].nodes.end());
 			lists[slot].nodes = lists[src].nodes;
 			lists[src].nodes.clear();
-			impl->moveAssign(slot, src);
+			lib->moveAssign(slot, src);
 			lastCounter[slot] = impl->counter(slot);
 			lastCounter[src] = impl->counter(src);
 			adoptMovedFrom(src, slot, pool);
@@ -655,7 +713,7 @@ struct Interp
 			int other = pickLive(op.b);
 			if(other < 0 || slot < 0 || slotBusy(slot) || slotBusy(other)) break;
 			std::swap(lists[slot].nodes, lists[other].nodes);
-			impl->swapLists(slot, other, op.a);
+			lib->swapLists(slot, other, op.a);
 			lastCounter[slot] = impl->counter(slot);
 			lastCounter[other] = impl->counter(other);
 			transferStage = 1;
@@ -669,7 +727,7 @@ struct Interp
 			if(! lists[slot].nodes.empty()) destroyedNonEmpty = true;
 			lists[slot].alive = false;
 			lists[slot].nodes.clear();
-			impl->destroyList(slot);
+			lib->destroyList(slot);
 			break;
 		}
 		case K_CHURN: {
@@ -764,7 +822,7 @@ struct Interp
 		if(wrapped) ++invokesAfterWrap;
 		log << "(" << slot << "){";
 		int serial = nextSerial++;
-		int r = impl->invoke(slot, arg, serial, how);
+		int r = lib->invoke(slot, arg, serial, how);
 		log << "}";
 		if(failed) { frames.pop_back(); return; }
 		Frame & fr = frames.back();
@@ -924,12 +982,14 @@ struct Interp
 	void run() {
 		const int cfg = prog.params.empty() ? 0 : ((prog.params[0] % kConfigs) + kConfigs) % kConfigs;
 		impl.reset(makeImpl(cfg));
-		multi = prop == "C10" || prop == "C19" || prop == "C08";
+		lib.p = impl.get();
+		multi = prop == "C10" || prop == "C19" || prop == "C08" || prop == "C09";
 		allowReuse = true;
 		lists[0].alive = true;
 		impl->newList(0, prog.params.size() > 1 ? prog.params[1] : 0);
 		lastCounter[0] = impl->counter(0);
 		try {
+			FaultPause harnessCode;
 			exec(prog.ops, 0, -1);
 			if(! failed) deepProbe();
 			if(! failed) quiescent();
@@ -955,6 +1015,8 @@ struct Interp
 
 void deliver(int cb, const ArgView & v)
 {
+	faults().point(1); // a callback may throw on entry (C09); everything it does afterwards runs with the injector paused
+	FaultPause fp, fp2; // twice: library calls issued from callback scripts (lib-> un-pauses once) stay paused
 	if(g_interp) g_interp->onCall(cb, v);
 }
 
@@ -968,7 +1030,7 @@ Grammar makeGrammar(const std::string & prop)
 	g.maxDepth = 3;
 	g.maxTotalOps = 160;
 	const bool nested = prop != "C01";
-	const bool multi = prop == "C10" || prop == "C19" || prop == "C08";
+	const bool multi = prop == "C10" || prop == "C19" || prop == "C08" || prop == "C09";
 	const bool wrap = prop == "C19";
 	const ArgSpec H(0, 40, -6, -1, 35);       // handle operand: index or special
 	const ArgSpec HS(0, 40, -6, -1, 60);      // inside scripts: favour self / last removed / ...
@@ -1042,17 +1104,18 @@ const Grammar & grammar(const std::string & prop)
 
 long g_caseCounter = 0;
 
-Verdict run(const Program & p, const std::string & prop)
+Verdict runOnce(const Program & p, const std::string & prop, FaultPlan * plan)
 {
 	Verdict v;
 	v.trace.reserve(4096);
 	v.classes.reserve(32);
 	ledger().reset();
-	LeakScope scope;
 	faults().reset();
 	checkedState().reset();
+	LeakScope scope;
 	{
 		Interp in(p, prop, v);
+		in.plan = plan;
 		g_interp = &in;
 		in.run();
 		g_interp = nullptr;
@@ -1086,16 +1149,21 @@ Verdict run(const Program & p, const std::string & prop)
 			v.trace.assign(full, 0, std::min<size_t>(full.size(), 4000));
 		}
 	}
-	// leaked nodes (shared_ptr cycles) hold no tracked object: only the leak checker sees them.
-	// Trigger: the heap did not return to its size before the case; confirmation: LeakSanitizer.
 	ledger().reset(); // drops the per-id tables, so that only library allocations can outlive the scope
 	if(v.ok && (scope.grew() || (++g_caseCounter & 1023) == 0)) {
 		v.classes.push_back("lsan_confirmation_run");
 		if(confirmLeak()) {
-			v.fail("lsan.leak", "C08", "LeakSanitizer: memory allocated during the case is unreachable after every list was destroyed", "lsan.leak");
+			v.fail("lsan.leak", plan ? "C08,C09" : "C08", "LeakSanitizer: memory allocated during the case is unreachable after every list was destroyed", "lsan.leak");
 		}
 	}
+	if(! v.ok && plan && ! plan->counting && v.prop == "C08") v.prop = "C08,C09"; // a leak / double destruction after an exception is C09's too
 	return v;
+}
+
+Verdict run(const Program & p, const std::string & prop)
+{
+	if(prop != "C09") return runOnce(p, prop, nullptr);
+	return faultOrchestrate(p, [&](const Program & q, FaultPlan & plan, Verdict & out) { out = runOnce(q, prop, &plan); });
 }
 
 } // namespace
